@@ -8,10 +8,14 @@
    The choice depends on the file system and the overlay only through what the old name currently is
    (C16_name_choice_depends_on_view): it is the same in any two worlds that agree on that - in memory or saved by an
    earlier invocation - which is why split pushes choose alike (with C09_fresh_invocation_equals_continuation).
+   -pN removes exactly N leading components (C16_strip_removes_components): the pieces the file system sees of the
+   stripped name are those of the name without its first N components, the root of an absolute name and a leading
+   "." counting as one component each - proved on the model of std::path::Components that the parser correspondence
+   validates; -p0 leaves a relative name as it is (C16_strip_zero).
    PARTIAL: option spellings (getopts) and the agreement across drivers are decided by the differential runs. *)
 From Coq Require Import List ZArith NArith Bool String.
 Import ListNotations.
-From RQ Require Import Base Apply Parser Quilt QuiltProofs ViewSim.
+From RQ Require Import Base Apply Parser Quilt QuiltProofs ViewSim StripProofs.
 Local Open Scope N_scope.
 
 Theorem C16_blank_ignored : parse_series_line [] = ROk None.
@@ -63,3 +67,19 @@ Theorem C16_name_choice_depends_on_view :
   forall K dm fs1 ov1 fs2 ov2 fp, wsim K dm fs1 ov1 fs2 ov2 -> fpK K fp -> choose_filename fs1 ov1 fp = choose_filename fs2 ov2 fp.
 Proof. exact choose_filename_sim. Qed.
 Print Assumptions C16_name_choice_depends_on_view.
+
+(* exactly N leading components are removed (N >= 1); [lead p] is 1 when p is absolute, is "." or starts with "./" -
+   such a first component is one of the N - and 0 otherwise *)
+Theorem C16_strip_removes_components :
+  forall n p, normalize (strip_path (S n) p) = skipn (S n - lead p) (normalize p).
+Proof. exact strip_removes_components. Qed.
+Print Assumptions C16_strip_removes_components.
+
+Theorem C16_strip_zero : forall p, lead p = 0%nat -> normalize (strip_path 0 p) = normalize p.
+Proof. exact strip_zero. Qed.
+Print Assumptions C16_strip_zero.
+
+Example C16_strip_examples :
+  strip_path 1 (b "a/src//util.c") = b "src//util.c" /\ normalize (strip_path 1 (b "a/src//util.c")) = [b "src"; b "util.c"] /\
+  strip_path 2 (b "./x/y/z") = b "y/z" /\ strip_path 1 (b "/abs/f") = b "abs/f" /\ strip_path 3 (b "a/b") = [].
+Proof. vm_compute. repeat split; reflexivity. Qed.
